@@ -46,7 +46,8 @@ ASSUMPTIONS = [
 
 def _mk():
     A = pd.DataFrame({"a": [0.0, 0.5, 0.0, 0.5, 4.0, 4.5, 4.0, 4.5]})
-    Ap = pd.DataFrame({"a": [3.0, 3.5, 3.0, 0.0, 0.5, 0.0, 0.5, 6.0]})
+    # same shape AND same multiset of values as A (a cache keyed on shape / totals / extremes cannot tell them apart)
+    Ap = pd.DataFrame({"a": [4.5, 4.0, 0.5, 0.0, 0.5, 0.0, 4.0, 4.5]})
     B = pd.DataFrame({"a": [0.0, 1.0, 0.0, 5.0, 6.0, 5.0], "b": [2.0, 2.5, 2.0, 2.5, 9.0, 2.0]})
     U = pd.DataFrame({"a": [4.0, 0.0, 0.5]}, index=pd.RangeIndex(8, 11))
     d = {"A": A, "Ap": Ap, "B": B, "U": U}
